@@ -107,6 +107,19 @@ def run(chk):
     fam.append((['U2'], dup if thorough else dup[::2]))
     fam.append((['U2', 'W2'], G.unary_pairs(['v0', 'v1']) + G.swapped_duplicates()))
     UC.run_family(chk, 'C01', fam, entries=entries)
+    # the multi-formula entry points: the i-th result is the semantics of the i-th formula, whatever the order of heights
+    P0, P1, X = ('prop', 'v0'), ('prop', 'v1'), ('var', 'x')
+    batches = [[('bind', 'x', None, ('AG', ('EF', X))), P0, ('EX', ('not', P1))], [P1, ('EF', ('AX', P0)), ('not', P0)], [('AU', P0, ('EX', P1)), ('exists', 'x', None, ('jump', 'x', ('AX', X))), ('AX', P1)]]
+    for inst in UC.instances(['U2']):
+        for batch in batches:
+            ents = ('multi', 'multi_dirty', 'trees', 'trees_dirty')
+            sess = UC.Session(inst, 1, [{'phis': batch, 'entry': e} for e in ents])
+            for e, r in zip(ents, sess.runs):
+                tag = f'C01/E-UNI {inst.name} model_check_{e} [' + ' ; '.join(S.show(f) for f in batch) + ']'
+                if 'ok' not in r or len(r['ok']) != len(batch):
+                    chk.obligation(tag, 'E-UNI', 'violated'); chk.violation(tag, 'error-on-valid-input', {'instance': inst.name, 'aeon': inst.aeon, 'batch': [S.show(f) for f in batch], 'answer': {k_: v_ for k_, v_ in r.items() if k_ != 'ok'}}, 'batch evaluation failed or returned a different number of results'); continue
+                for pos, f in enumerate(batch):
+                    UC.check_equiv(chk, 'C01', sess, f, r['ok'][pos], f'{tag} position {pos} == semantics of its formula', 'semantics', rdec=sess.dec_for(ents.index(e)))
     # bounded-exhaustive small plain formulas (thorough: every formula with <= 4 nodes; quick: a seed-chosen sample incl. size 5)
     kw = dict(wild=(), doms=(None,), un=('not', 'EX', 'AX', 'EF', 'AG', 'EG', 'AF'), bins=('and', 'or', 'EU', 'AU'), props=('v0', 'v1'))
     small = [f for sz in (2, 3, 4) for f in G.enumerate_formulas(sz, **kw)] if thorough else G.sample_small(chk.rng, 240, sizes=(3, 4, 5), **kw)
